@@ -376,7 +376,10 @@ def main(argv=None):
         "traces_validated_against_impl": agg["traces"],
         "samples": samples or [{"note": "no case explored"}],
         "evaluations": agg["states"], "distinct_nontrivial": agg["nontrivial"],
-        "rule": desc.get("rule", ""), "exhaustive": bool(desc.get("exhaustive", False)),
+        "rule": desc.get("rule", ""),
+        # never call a capped run exhaustive: any stage explored only to a deviation bound, capped, abandoned or not recognised turns the flag off
+        "exhaustive": bool(desc.get("exhaustive", False)) and agg["undecided"] == 0 and not any(
+            v and ("deviation<=" in k or "capped" in k or "not_recognised" in k) for k, v in extra.items()),
         "bounds": desc.get("bounds", {}), "distinct_outcomes": len(outcomes),
         "undecided": agg["undecided"], "work_units": len(units),
         "stages": {k: v for k, v in sorted(extra.items()) if not k.startswith("fail:")},
@@ -384,6 +387,10 @@ def main(argv=None):
         "technique": desc.get("technique", ""),
     }
     cov.update(final_cov or {})
+    if "E2" in getattr(mod, "MANIFEST", {}).get("engine", ""):
+        # the only model in the E2 checks is the RNG facade: re-bind it to the real numpy on every run and report the count
+        from mc.env import conformance
+        cov["facade_conformance_traces_against_real_numpy"] = conformance.run()
     ev = {"property_id": pid, "tier": tier, "seed": seed, "level": "model_checking", "coverage": cov,
           "assumptions": desc.get("assumptions", []), "wall_s": round(time.time() - t0, 2),
           "violations": len(new), "known_findings_hit": len(known_hit), "repo_head": head}
